@@ -106,9 +106,13 @@ pub fn check_idempotent(
     sink: &mut Sink,
     label: &str,
 ) {
+    check_idempotent_at(prop, u, input, cfg, &widths_for(cfg, tier), sink, label)
+}
+
+pub fn check_idempotent_at(prop: &str, u: &Unit, input: &str, cfg: &Cfg, widths: &[usize], sink: &mut Sink, label: &str) {
     let mut prev_y1: Option<String> = None;
     let mut nontrivial = false;
-    for w in widths_for(cfg, tier) {
+    for &w in widths {
         let o1 = fmt::format(input, cfg, w);
         sink.count("transitions", 1);
         if !clean_first_pass(&o1) {
@@ -201,9 +205,64 @@ impl Prop for C02 {
                 (u.cfg.kv.is_empty() || u.key.ends_with("/L0")) && (base_form || u.cfg.style_edition == 2024)
             });
         }
+        // import trees (C10's catalogue): single declarations at every width, ordered pairs at three widths,
+        // under every granularity / grouping / reordering configuration
+        let trees = super::c10::TREES;
+        let np = if thorough { trees.len() } else { 30 };
+        let mut seqs: Vec<(String, String)> = trees.iter().enumerate().map(|(i, t)| (format!("imports/s{i}"), format!("{t}\n"))).collect();
+        for i in 0..np {
+            for j in 0..np {
+                seqs.push((format!("imports/p{i}.{j}"), format!("{}\n{}\n", trees[i], trees[j])));
+            }
+        }
+        // Merging two trees that import the same name keeps the name twice in the merged list; the second pass
+        // removes the duplicate (known finding). Pairs with a common or repeated leaf are explored under a
+        // merging granularity for the first five trees only, so that this one root cause is listed a few times.
+        let leaves_of = |t: &str| -> Vec<String> {
+            crate::usetree::crate_items(&format!("{t}\n"), 2021)
+                .map(|v| v.iter().flat_map(|i| i.leaves.iter().map(|l| format!("{}|{:?}|{}", l.path.trim_start_matches("::"), l.alias, l.glob))).collect())
+                .unwrap_or_default()
+        };
+        let tree_leaves: Vec<Vec<String>> = trees.iter().map(|t| leaves_of(t)).collect();
+        let has_dup = |key: &str| -> bool {
+            let Some(rest) = key.strip_prefix("imports/p") else { return false };
+            let mut it = rest.split('.').map(|n| n.parse::<usize>().unwrap());
+            let (i, j) = (it.next().unwrap(), it.next().unwrap());
+            if i < 5 && j < 5 {
+                return false;
+            }
+            let mut all: Vec<&String> = tree_leaves[i].iter().chain(tree_leaves[j].iter()).collect();
+            let n = all.len();
+            all.sort();
+            all.dedup();
+            all.len() != n
+        };
+        for (key, text) in seqs {
+            let dup = has_dup(&key);
+            for cfg in super::c10::cfgs(tier) {
+                if dup && cfg.get("imports_granularity").is_some() {
+                    continue;
+                }
+                // imports_granularity=One turns aliases into unparsable text (C10's known findings): pairs with
+                // an alias are left to C10 under that setting
+                if cfg.get("imports_granularity") == Some("One") && text.contains(" as ") && key.starts_with("imports/p") {
+                    continue;
+                }
+                units.push(Unit { key: key.clone(), text: text.clone(), cfg, extra: json!({"kind": "Imports"}) });
+            }
+        }
         units
     }
     fn check(&self, u: &Unit, tier: Tier, sink: &mut Sink) {
+        if u.key.starts_with("imports/") {
+            sink.sample(json!({"unit": u.key, "input": u.text, "config": u.cfg.label()}));
+            if u.key.starts_with("imports/s") {
+                check_idempotent("C02", u, &u.text, &u.cfg, tier, sink, "");
+            } else {
+                check_idempotent_at("C02", u, &u.text, &u.cfg, &[100, 40, 20], sink, "");
+            }
+            return;
+        }
         if !parse::parses(&u.text, u.cfg.edition) {
             sink.count("dropped_unparsable", 1);
             return;
